@@ -37,12 +37,27 @@ def mc(spec="Spec", req="R3", body="B000", ms=2, iw=2, mg=0, rs=1, dev="NoDev", 
     return t
 
 
-TRACE_CFG = "SPECIFICATION TSpec\nCONSTANTS\n MaxStream = 41\nCONSTRAINT Mark\nPOSTCONDITION Post\nCHECK_DEADLOCK FALSE\n"
+TRACE_CFG = "SPECIFICATION TSpec\nCONSTANTS\n MaxStream = {ms}\nCONSTRAINT Mark\nPOSTCONDITION Post\nCHECK_DEADLOCK FALSE\n"
 
 
 def validate(traces):
-    res, stats = tlc.validate_traces("MCH2WireTrace", TRACE_CFG, traces, nd=1)
-    return [r[0] for r in res], stats
+    """Traces with many streams (long histories on one connection) are validated in a batch of
+    their own with a larger MaxStream: the constant sizes every per-stream function of the state."""
+    small, large = [], []
+    for i, t in enumerate(traces):
+        top = max([e.get("sid", 0) for e in t["ev"]] + [0])
+        (small if top <= 41 else large).append((i, t, top))
+    out = [None] * len(traces)
+    stats = {}
+    for group, ms in ((small, 41), (large, max([x[2] for x in large] + [41]) + 2)):
+        if not group:
+            continue
+        res, st = tlc.validate_traces("MCH2WireTrace", TRACE_CFG.format(ms=ms), [t for _, t, _ in group], nd=1)
+        for (i, _, _), r in zip(group, res):
+            out[i] = r[0]
+        for k, v in st.items():
+            stats[k] = stats.get(k, 0) + v if isinstance(v, (int, float)) else v
+    return out, stats
 
 
 def gets(n, consume=None):
@@ -99,6 +114,9 @@ def scenarios(prop, tier):
         S.append(("up12+get-iws4", uploads([12, None]), dict(init_settings={SC.INITIAL_WINDOW_SIZE: 4}, window=4, wu_unit=1), {}))
         S.append(("longpoll+up12-iws4", uploads([None, 12]), dict(init_settings={SC.INITIAL_WINDOW_SIZE: 4}, window=4, wu_unit=4, hold_until_uploads=2), {}))
         S.append(("up9+up9-iws3", uploads([9, 9]), dict(init_settings={SC.INITIAL_WINDOW_SIZE: 3}, window=3, wu_unit=2), {}))
+        # the response head arrives while the upload is blocked on its window, the credit afterwards
+        S.append(("up12-iws5-early-head", uploads([12]), dict(init_settings={SC.INITIAL_WINDOW_SIZE: 5}, window=5, wu_unit=3, early_head=True), {}))
+        S.append(("up9+up9-iws3-early-head", uploads([9, 9]), dict(init_settings={SC.INITIAL_WINDOW_SIZE: 3}, window=3, wu_unit=2, early_head=True), {}))
         S.append(("up0-up1", uploads([0, 1]), dict(), {}))
         S.append(("up65535", uploads([65535]), dict(), {}))
         S.append(("up65536", uploads([65536]), dict(window=65535, wu_unit=70000), {}))
@@ -108,6 +126,10 @@ def scenarios(prop, tier):
         # 16 MiB + 65,535 of credit the client grants up front, so the credit it RETURNS (for padding
         # too) is what keeps a server that respects the windows going
         S.append(("download-padded-17MiB-of-credit", [dict(name="r1", url="http://a.test/big1"), dict(name="r2", url="http://a.test/2")], dict(pad=255), {"big": 67000 * 4, "frame": 4}))
+        # a long HISTORY on one connection: 1,100 responses of ONE 16,384-byte DATA frame each, carrying
+        # END_STREAM - 17.2 MiB in "last frames" only, so that credit withheld for the frame that ends a
+        # stream (or per response) exhausts the connection window although no single transfer is large
+        S.append(("get1100-one-frame-each-17MiB", [dict(name=f"r{i}", url=f"http://a.test/big{i}") for i in range(1, 1101)], dict(), {"big": 16384, "frame": 16384}))
         if not quick:
             S.append(("download-17MiB", [dict(name="r1", url="http://a.test/big1"), dict(name="r2", url="http://a.test/2")], dict(), {"big": 17 * 1024 * 1024 + 123}))
         else:
